@@ -1,7 +1,7 @@
 (* Props/C05.v — property theorems only. *)
 From Coq Require Import List NArith ZArith.
 From N0 Require Import Base.PyStr Base.PyVal Xpath.Dec Xpath.DecProofs Xpath.Token Xpath.TokenProofs
-  Xpath.Find Xpath.FindProofs Xpath.Write Xpath.SpecProofs Xpath.WalkProofs Xpath.DeleteProofs Xpath.DeleteFrame.
+  Xpath.Find Xpath.FindProofs Xpath.Write Xpath.SpecProofs Xpath.WalkProofs Xpath.DeleteProofs Xpath.DeleteFrame Xpath.DeleteFrameTree.
 Import ListNotations.
 
 (* delete(xpath) on a path that spells an existing node (relative, '/'- or '//'-rooted,
@@ -99,6 +99,15 @@ Theorem C05_other_elements_kept : forall (l : list tree) i,
   (forall j d, i <= j -> nth j (del_nth i l) d = nth (S j) l d).
 Proof. exact (fun l i => conj (del_nth_firstn_skipn l i) (conj (fun j d => del_nth_before l i j d) (fun j d => del_nth_after l i j d))). Qed.
 Print Assumptions C05_other_elements_kept.
+
+(* delete-frame on whole trees: every path that parts ways with the deleted one at
+   a key step, or at an index step above the list the slot is removed from,
+   resolves exactly as before (the siblings of a removed list element shift:
+   C05_other_elements_kept). *)
+Theorem C05_delete_frame : forall t p q,
+  kdiverge p q -> resolve (delete_at t p) q = resolve t q.
+Proof. exact resolve_delete_other. Qed.
+Print Assumptions C05_delete_frame.
 
 Theorem C05_delete_is_local : forall t q r u,
   r <> [] -> resolve t q = Some u -> delete_at t (q ++ r) = replace_at t q (delete_at u r).
